@@ -9,8 +9,8 @@ PROP = {
             "Non-trivial: at least one negative scale or a rotation whose matrix-to-quaternion conversion does not take the 'w largest' branch (2D: at least one negative scale; compose-2d also needs a non-zero angle). "
             "distinct = distinct hash of (float width, backend, words). Classes cross-tabulate sign pattern x branch and the source of the decomposed matrix.",
     "builds": {
-        "quick": [B("stable"), B("nightly", 0.25, False)],
-        "thorough": [B("stable"), B("nightly", 0.25, False)],
+        "quick": [B("stable"), B("fma", 0.25), B("nightly", 0.25, False)],
+        "thorough": [B("stable"), B("fma", 0.5), B("nightly", 0.25, False)],
     },
     "volume": {"quick": 6},
     "technique": "property-based testing: proptest generators (all scale sign patterns, rotations aimed at every matrix-to-quaternion branch and its boundaries) against a double-double reference T*R*S written in the harness, "
